@@ -84,5 +84,15 @@ package binary
 // dynamically (checked on its SSA).
 //@ callback-parametric func writeChangeSwitchCase
 
+// C05: when the element type of a vector (or of a stream batch) changed, the generated reader converts element by
+// element. Every element is converted into a temporary of its own, declared and value-initialised inside the body
+// of the generated loop: a conditional element conversion (an optional that is empty, a union case that is skipped)
+// assigns nothing and must then leave the default, not the value the previous element left behind. The loop body
+// is the closure that prints the store into the target element.
+//@ func writeTypeConversion@emits:"%s[i] = %s;\n"
+//@   property C05
+//@   ensures each_element_gets_its_own_temporary: emittedHere("%s %s = {};\n") == 1
+//@   ensures each_element_is_stored_once: emittedHere("%s[i] = %s;\n") == 1
+
 // Output and diagnostics may not depend on the iteration order of a Go map (C12): decided per `range` over a map.
 //@ map-order C12 package
